@@ -41,7 +41,7 @@ type WL struct {
 func gen(r *rand.Rand) WL {
 	w := WL{Container: []string{"csr", "adj"}[r.IntN(2)]}
 	n := 1 + r.IntN(8)
-	dagish := r.IntN(2) == 0
+	dagish := r.IntN(3) > 0
 	if dagish {
 		n = 5 + r.IntN(6) // deeper component DAGs with cross edges: eviction inside one DFS becomes likely
 	}
@@ -51,6 +51,33 @@ func gen(r *rand.Rand) WL {
 		r.Shuffle(len(pool), func(i, j int) { pool[i], pool[j] = pool[j], pool[i] })
 	}
 	w.Nodes = append(w.Nodes, pool[:n]...)
+	layered := dagish && r.IntN(2) == 0
+	if layered {
+		// layered DAG: many diamonds (a component reached along several routes), small caches, long
+		// query histories - the regime in which partially computed reach can leak into the cache
+		n = 6 + r.IntN(6)
+		w.Nodes = append([]uint64{}, pool[:n]...)
+		layer := make([]int, n)
+		nl := 3 + r.IntN(3)
+		for i := range layer {
+			layer[i] = i * nl / n
+		}
+		for a := 0; a < n; a++ {
+			for b := a + 1; b < n; b++ {
+				d := layer[b] - layer[a]
+				if (d == 1 && r.IntN(10) < 6) || (d == 2 && r.IntN(10) < 2) {
+					// edges point from higher layers to lower ones or the other way round, per run
+					w.Edges = append(w.Edges, [2]uint64{w.Nodes[b], w.Nodes[a]})
+				}
+			}
+		}
+		w.Cap = []int{2, 2, 3, 3, 4}[r.IntN(5)]
+		nq := 4 + r.IntN(9)
+		for i := 0; i < nq; i++ {
+			w.Queries = append(w.Queries, Q{K: []string{"reach", "reach", "slice", "or"}[r.IntN(4)], A: w.Nodes[r.IntN(n)], Dir: "out"})
+		}
+		return w
+	}
 	ne := r.IntN(2*n + 2)
 	for i := 0; i < ne; i++ {
 		a, b := r.IntN(n), r.IntN(n)
